@@ -151,3 +151,19 @@ Example cover_and_occurrence :
   cover_ok [104; 105]%N m atoms = true /\ legal m = true /\
   text_matches [104; 105]%N m [120; 72; 0; 105; 0; 104; 73]%N = [(1%nat, [(4%N, 0%N)]); (5%nat, [(2%N, 0%N)])].
 Proof. vm_compute. repeat split; reflexivity. Qed.
+
+(* Source tie of the character classes: the tables the implementation's yr_isalnum / yr_lowercase produce (regenerated from /repo on every
+   run) are the documented classes the specification uses -- for all 256 byte values.  A change of either function breaks this obligation;
+   the correspondence then finds the byte (the specification keeps the documented class, the implementation follows its table). *)
+Theorem character_tables_are_documented : forall b : N, (b < 256)%N ->
+  table_alnum b = alnum b /\ table_lower b = lower b.
+Proof.
+  assert (H : forallb (fun n => andb (Bool.eqb (table_alnum (N.of_nat n)) (alnum (N.of_nat n))) (N.eqb (table_lower (N.of_nat n)) (lower (N.of_nat n))))
+                      (seq 0 256) = true) by (vm_compute; reflexivity).
+  intros b Hb. rewrite forallb_forall in H. specialize (H (N.to_nat b)).
+  rewrite Nnat.N2Nat.id in H.
+  assert (Hin : In (N.to_nat b) (seq 0 256)) by (apply in_seq; lia).
+  apply H in Hin. apply Bool.andb_true_iff in Hin as [H1 H2].
+  split; [now apply Bool.eqb_prop | now apply N.eqb_eq].
+Qed.
+Print Assumptions character_tables_are_documented.
